@@ -103,7 +103,9 @@ func round(x float64, prec int) float64 {
 	} else {
 		intermed += 0.5
 	}
-	return float64(int64(intermed)) / float64(pow)
+	// (math.Trunc, not a conversion to int64: x * pow may lie beyond the int64
+	// range although the rounded result does not.)
+	return math.Trunc(intermed) / float64(pow)
 }
 
 func funcFloor(v []data.Value) data.Value {
